@@ -16,7 +16,7 @@ import (
 
 func init() {
 	Describe("C17", &PropInfo{
-		Rule: "grammars from productive/prec/lalr/separators families, half of them renamed from the identifier pools and with literals drawn from all printable ASCII characters except blank and backslash; inputs = strings up to a length bound, sampled and mutated sentences (declared tokens only); the four Go variants run with IsTrace = true and stdout captured per parse; during every third parse the action of an early reduction starts a nested parser run (PushContex/ParserInit/Parser/PopContex, or a second context with -o) whose own trace is bracketed and skipped. Non-trivial = a trace with >= 3 reductions one of which is an empty-rule reduction; distinct by grammar text + input",
+		Rule: "grammars from productive/prec/lalr/separators families, half of them renamed from the identifier pools and with literals drawn from all printable ASCII characters except blank and backslash; inputs = strings up to a length bound, sampled and mutated sentences (declared tokens only); the four Go variants run with IsTrace = true and stdout captured per parse; during every third parse the action of an early reduction starts a nested parser run (PushContex/ParserInit/Parser/PopContex, or a second context with -o) whose own trace is bracketed and skipped; six inputs per grammar are parsed once more with IsTrace switched on by an action at an early reduction, and what is printed from then on must be the tail of the full trace. Non-trivial = a trace with >= 3 reductions one of which is an empty-rule reduction; distinct by grammar text + input",
 		Assumptions: []string{
 			"line formats are those of README.md: 'Shift <symbol>, push state <n>' and 'look ahead <token>, use Reduce:<lhs> -> <rhs> , go to state <n>'; rule texts are compared token by token after collapsing runs of blanks",
 			"undeclared token codes are not fed here (they have no name the trace could print)",
@@ -88,6 +88,7 @@ func drawC17(t *rapid.T) *TGCase {
 	cs.Inputs = ins
 	cs.Variants = []string{"go", "go-u", "go-o", "go-ou"}
 	cs.NestEvery = 3
+	cs.TraceLate = 6
 	return cs
 }
 
@@ -319,6 +320,26 @@ func evalC17(c *Ctx, cs *TGCase, vr map[string]*gen.VRes) (string, []int) {
 				if c.WantSample() {
 					c.Sample(map[string]interface{}{"grammar": cs.Text, "variant": v.Name, "input": inputNames(s, in), "trace": clip(pr.Out, 1200)})
 				}
+			}
+		}
+		// tracing switched on in the middle of a parse (by an action, at an early
+		// reduction): what is printed from then on must be exactly the tail of the
+		// trace of the same parse with tracing on from the start
+		for k := 0; k < cs.TraceLate && k < len(cs.Inputs); k++ {
+			full, err1 := r.ParseRes(k)
+			late, err2 := r.ParseRes(len(cs.Inputs) + k)
+			if err1 != nil || err2 != nil {
+				break
+			}
+			if cs.NestEvery > 0 && k%cs.NestEvery == cs.NestEvery-1 {
+				continue // the full trace of this input contains a nested run
+			}
+			c.Eval(1)
+			if late.Out != "" && !strings.HasSuffix(full.Out, late.Out) {
+				return fmt.Sprintf("variant %s, input %s: with IsTrace switched on at reduction %d the parser prints\n%s\nwhich is not the tail of the trace printed with IsTrace on from the start:\n%s", v.Name, inputNames(s, cs.Inputs[k]), 1+k%3, clip(late.Out, 600), clip(full.Out, 900)), cs.Inputs[k]
+			}
+			if late.Out != "" {
+				c.Class("late-trace-is-tail-of-full-trace:" + v.Name)
 			}
 		}
 		c.Class("traces-checked:" + v.Name)
